@@ -185,7 +185,7 @@ def _builder(o):
         hs = [h for h in K.plan_elf() if h["name"] == hname]
         return hs, (lambda d, hh: K.build_elf(d, hh)), "elf", "axelf", "gen_elf"
     if unit == "kani_stk":
-        hs = [h for h in K.plan_stk() if h["name"] == hname]
+        hs = [h for h in K.plan_stk("thorough") if h["name"] == hname]
         return hs, (lambda d, hh: K.build_stk(d, hh)), "stk", "axstk", "gen_stk"
     return [], None, None, None, None
 
